@@ -7,6 +7,7 @@ R17.2  layering in _prepare_headers: fresh dict <- defaults <- per-request heade
 R17.3  pass-through: request() forwards every caller kwarg except `headers`, unchanged
 R17.4  CompositeAuth threads the result through self.plugins in order
 R17.5  ApiKeyAuth location switch is total and writes self.name -> self.key into the right container
+R17.13 the caller's mapping `params` is never flattened into (name, value) pairs (list values = repeated names only in mapping form)
 R17.7  where plugin-added params / cookies are merged into the caller's value, that value is converted with dict() only under a type test
 R17.8  the credential a bundled plugin writes is built from its stored state, never from the raw result of an awaited callback
 R17.10 every header store after the first layer is case-insensitive (no `authorization` next to `Authorization`)
@@ -566,6 +567,32 @@ def run(repo: Repo, rep: Report, tier: str) -> None:
                                   f"`{norm(c)[:50]}` turns whatever the caller passed into a dict: a sequence of (name, value) pairs with a repeated name "
                                   "(`[('tag','a'),('tag','b')]`) loses all but the last value as soon as a plugin adds a query parameter or cookie", prep7.loc(c))
     rep.count("R17.7:dict_conversions_of_caller_values", n7)
+
+    # ---------------------------------------------------------------- R17.13 (= R4.23) a caller's mapping is not flattened into pairs
+    # In httpx's mapping form a list value means "repeat the name" (`tags=a&tags=b`, the form/explode encoding the generated methods rely on);
+    # in the pair form the second element is one primitive and a list is rendered with str().  `<caller value>.items()` spliced into a
+    # list of pairs therefore changes what array-valued query parameters put on the wire.
+    n13 = 0
+    bad13 = 0
+    for nd in cfg7.nodes:
+        if nd.kind != "stmt" or nd.ast is None or nd.copy:
+            continue
+        for c in calls_in(nd.ast):
+            if isinstance(c.func, ast.Attribute) and c.func.attr in ("items", "multi_items") and isinstance(c.func.value, ast.Name):
+                n13 += 1
+                if c.func.attr == "items" and c.func.value.id in caller_vals:
+                    up = parent(c)
+                    spliced = isinstance(up, ast.Starred) or (isinstance(up, ast.Call) and dotted(up.func) in ("list", "tuple"))
+                    if spliced:
+                        bad13 += 1
+                        rep.violation("R17.13", f"{tmod7.relpath}:HttpxTransport._prepare_headers pairs made of the caller's `{c.func.value.id}`",
+                                      f"{prep7.fq}|caller-mapping-flattened-to-pairs",
+                                      f"`{norm(up)[:60]}` turns the caller's mapping into (name, value) pairs: a list value - an array query parameter, which httpx "
+                                      "repeats per element in mapping form - becomes one pair whose value is rendered with str() (`tags=%5B%27a%27%2C+%27b%27%5D`)", prep7.loc(c))
+    rep.count("R17.13:items_calls_in_merge", n13)
+    if not bad13:
+        rep.ok("R17.13", f"{tmod7.relpath}:HttpxTransport._prepare_headers caller mappings keep mapping form",
+               f"{n13} `.items()`/`.multi_items()` calls: none flattens a caller-supplied mapping into a pair list (plugin dicts and URL queries only)", prep7.loc(prep7.node))
 
     # ---------------------------------------------------------------- R17.3 pass-through
     sub3 = f"{tmod.relpath}:HttpxTransport.request"
